@@ -115,17 +115,17 @@ package stack
 //@   loop 1: invariant -1 <= rangeindex && rangeindex < len(s.Goroutines)
 //@   loop 1: decreases len(s.Goroutines) - rangeindex
 
+//@ pred isSp(c int) = c == 9 || c == 32
+
 //@ func parseFunc
-//@   option assumed
 //@   requires c != nil
-//@   modifies Call.*, Func.*, Args.*, Arg.*
-//@   ensures result1 != nil ==> result0
+//@   modifies Func.* at &c.Func; Call.ImportPath at c; Args.Values, Args.Processed, Args.Elided at &c.Args
+//@   ensures [errorImpliesFound C07] result1 != nil ==> result0
 
 //@ func parseFile
-//@   option assumed
 //@   requires c != nil
-//@   modifies Call.*, Func.*
-//@   ensures result1 != nil ==> result0
+//@   modifies Call.Line, Call.RemoteSrcPath, Call.SrcName, Call.DirSrc, Call.Location, Call.ImportPath at c
+//@   ensures [errorImpliesFound C07] result1 != nil ==> result0
 
 // The package part of a symbol ends at the first dot after the last slash (or
 // at the first dot when there is no slash); -2 stands for "slash but no dot".
@@ -140,22 +140,57 @@ package stack
 //@   ensures [initMainFlag C01] result == nil ==> (f.IsPkgMain <==> f.ImportPath == "main") || old(f.IsPkgMain)
 
 //@ func (*Call).init
-//@   option assumed
 //@   requires c != nil
-//@   modifies Call.* at c
+//@   modifies Call.Line, Call.RemoteSrcPath, Call.SrcName, Call.DirSrc, Call.Location, Call.ImportPath at c
+//@   ensures [initLine C01] c.Line == line && c.ImportPath == c.Func.ImportPath
+//@   ensures [initPath C01] srcPath != "" ==> c.RemoteSrcPath == srcPath && (lastIndexByte(srcPath, 47) != -1 ==> c.SrcName == srcPath[lastIndexByte(srcPath, 47)+1:])
+//@   ensures [initDirSrc C01] srcPath != "" && lastIndexByte(srcPath, 47) != -1 && lastIndexByte(srcPath[:lastIndexByte(srcPath, 47)], 47) != -1 ==> c.DirSrc == srcPath[lastIndexByte(srcPath[:lastIndexByte(srcPath, 47)], 47)+1:]
+//@   ensures [initTestMainIsStdlib C01 C18] srcPath != "" && c.DirSrc == testMainSrc ==> c.Location == Stdlib
+//@   ensures [initKeepsLocationOtherwise C01 C18] !(srcPath != "" && c.DirSrc == testMainSrc) ==> c.Location == old(c.Location)
+//@   ensures [initEmptyPathKeepsFields C01] srcPath == "" ==> c.RemoteSrcPath == old(c.RemoteSrcPath) && c.SrcName == old(c.SrcName) && c.DirSrc == old(c.DirSrc)
 
 //@ func isFramesElidedLine
-//@   option assumed
 //@   modifies nothing
 
 //@ func trimLeftSpace
-//@   option assumed
 //@   modifies nothing
-//@   ensures result == nil || subslice(result, s)
+//@   ensures [trimLeftSpaceSpec C08] result == nil ? (forall k :: 0 <= k && k < len(s) ==> isSp(s[k])) : (subslice(result, s) && len(result) >= 1 && !isSp(result[0]) && off(result) + len(result) == off(s) + len(s) && (forall k :: 0 <= k && k < len(s) - len(result) ==> isSp(s[k])))
+//@   loop 0: invariant -1 <= rangeindex && rangeindex < len(s) && (forall k :: 0 <= k && k <= rangeindex ==> isSp(s[k]))
+//@   loop 0: decreases len(s) - rangeindex
 
+//@ func trimCurlyBrackets
+//@   option overflow=on
+//@   modifies nothing
+//@   ensures [curlyCounts C01] 0 <= result0 && 0 <= result2 && result0 + len(result1) + result2 == len(s)
+//@   ensures [curlyIsMiddle C01] len(result1) > 0 ==> subslice(result1, s) && off(result1) == off(s) + result0
+//@   ensures [curlyLeftAllOpen C01] forall k :: 0 <= k && k < result0 ==> s[k] == 123
+//@   ensures [curlyRightAllClose C01] forall k :: len(s) - result2 <= k && k < len(s) ==> s[k] == 125
+//@   ensures [curlyMaximal C01] len(result1) > 0 ==> result1[0] != 123 && result1[len(result1)-1] != 125
+//@   loop 0: invariant 0 <= i && i <= j && j == len(s) && (forall k :: 0 <= k && k < i ==> s[k] == 123)
+//@   loop 0: decreases j - i
+//@   loop 1: invariant 0 <= i && i <= j && j <= len(s) && (forall k :: 0 <= k && k < i ==> s[k] == 123) && (forall k :: j <= k && k < len(s) ==> s[k] == 125) && (i < len(s) ==> s[i] != 123 || i == j)
+//@   loop 1: decreases j - i
+
+// unsafeString reinterprets a byte slice as a string without copying (unsafe
+// code: outside the verified subset; the contract is assumed and listed).
 //@ func unsafeString
 //@   option assumed
 //@   modifies nothing
+//@   ensures len(result) == len(b) && forall k :: 0 <= k && k < len(b) ==> result[k] == b[k]
+
+// parseArgs: panic-freedom of the bracket stack and, at the only two places
+// where scalar leaves are created, the leaf rules of the property (pointer
+// likeness is a function of the value; too-large leaves are zero and unnamed).
+//@ func parseArgs
+//@   modifies nothing
+//@   ensures [errorGivesEmptyArgs C01] result1 != nil ==> len(result0.Values) == 0 && !result0.Elided
+//@   assert after-store Args.Values#2: [tooLargeLeafIsWellFormed C01 C05] len(cur.Values) >= 1 && cur.Values[len(cur.Values)-1].IsOffsetTooLarge && cur.Values[len(cur.Values)-1].Value == 0 && !cur.Values[len(cur.Values)-1].IsPtr && cur.Values[len(cur.Values)-1].Name == "" && !cur.Values[len(cur.Values)-1].IsAggregate
+//@   assert after-store Args.Values#3: [pointerLikenessDependsOnValueOnly C01] len(cur.Values) >= 1 && (cur.Values[len(cur.Values)-1].IsPtr <==> (pointerFloor < cur.Values[len(cur.Values)-1].Value && cur.Values[len(cur.Values)-1].Value < pointerCeiling)) && cur.Values[len(cur.Values)-1].Name == "" && !cur.Values[len(cur.Values)-1].IsAggregate && !cur.Values[len(cur.Values)-1].IsOffsetTooLarge && (cur.Values[len(cur.Values)-1].IsInaccurate <==> inaccurate)
+//@   loop 0: invariant -1 <= rangeindex && 0 <= depth && depth < 6 && (forall k :: 0 <= k && k <= depth ==> stack[k] != nil && fresh(stack[k]) && live(stack[k]) && (stack[k].Values == nil || fresh(stack[k].Values)))
+//@   loop 1: invariant 0 <= depth && depth < 6 && 0 <= i && (forall k :: 0 <= k && k <= depth ==> stack[k] != nil && fresh(stack[k]) && live(stack[k]) && (stack[k].Values == nil || fresh(stack[k].Values)))
+//@   loop 1: decreases opened - i
+//@   loop 2: invariant 0 <= depth && depth < 6 && 0 <= i && (forall k :: 0 <= k && k <= depth ==> stack[k] != nil && fresh(stack[k]) && live(stack[k]) && (stack[k].Values == nil || fresh(stack[k].Values)))
+//@   loop 2: decreases closed - i
 
 //@ func ScanSnapshot
 //@   requires in != nil && prefix != nil
